@@ -10,8 +10,11 @@ import json, os, re, sys, time, hashlib, random, subprocess
 from concurrent.futures import ThreadPoolExecutor
 from vlib import *
 
-KNOWN_SIG = "importedString-lazy-scan-data-race"
-TMPL_SIG = "tagged-template-object-shared-across-runtimes-race"
+# Signatures of the two defects this check found (both repaired in /repo: 7f47297, 85b307c).  They are regression
+# classes now: a report on the memo cells of a shared imported string or on the compiled template slots of a shared
+# Program is a VIOLATION like any other race (a `fixed` entry in known_findings suppresses nothing).
+MEMO_SIG = "race-on-importedString-memo"
+TMPL_SIG = "race-on-compiled-template-slots"
 
 # ----------------------------------------------------------------------------------------------- JS generator
 
@@ -209,8 +212,81 @@ def sn_funcs(rng):
             % rng.randrange(9))
 
 
+def sn_async(rng):
+    k = rng.randrange(4)
+    v = rng.randrange(50)
+    if k == 0:
+        return ("globalThis.__late = globalThis.__late || []; var L=__late; async function a1(x){ L.push('s'+x); var y = await x; L.push('r'+y); try { await Promise.reject(new RangeError('e'+y)) } catch(e) { L.push(e.message) } finally { L.push('fin') } return y*2 }"
+                " a1(%d).then(function(v){ L.push('then'+v) }); L.push('sync'); R.push(L.length);" % v)
+    if k == 1:
+        return ("globalThis.__late = globalThis.__late || []; var L=__late; function later(x){ return new Promise(function(res){ res(x*%d) }) }"
+                " (async function(){ var out=[]; for (var i=0;i<3;i++){ out.push(await later(i)) } for (var p of [later(7), 8, Promise.resolve(9)]) out.push(await p); L.push(out) })(); Promise.all([1,Promise.resolve(2),new Promise(function(r){ r(3) })]).then(function(v){ L.push(v) });"
+                " Promise.race([new Promise(function(){}), Promise.resolve('w')]).then(function(v){ L.push(v) }); R.push('queued');" % (v + 1))
+    if k == 2:
+        return ("globalThis.__late = globalThis.__late || []; var L=__late; var thenable={ then: function(res){ L.push('thenable'); res(%d) } }; (async function(){ L.push(await thenable); L.push(await (async () => { throw new TypeError('t') })().catch(function(e){ return e.name })) })();"
+                " Promise.allSettled([Promise.reject(1), 2]).then(function(r){ L.push(r.map(function(x){ return x.status })) }); R.push(typeof Promise.prototype.finally);" % v)
+    return ("globalThis.__late = globalThis.__late || []; var L=__late; class Q { #n=%d; async get(){ await null; return this.#n } static async make(){ var q=new Q(); return [await q.get(), #n in q] } } Q.make().then(function(v){ L.push(v) });"
+            " var order=[]; Promise.resolve().then(function(){ order.push(1) }).then(function(){ order.push(3); L.push(order) }); Promise.resolve().then(function(){ order.push(2) }); R.push(order.length);" % v)
+
+
+def sn_class_static(rng):
+    k = rng.randrange(4)
+    v = rng.randrange(20)
+    if k == 0:
+        return ("class K { static #count = %d; static #bump(){ return ++K.#count } static { K.first = K.#bump(); K.names = Object.getOwnPropertyNames(K).sort() } static get count(){ return K.#count } #priv(){ return 'p' } static call(o){ return o.#priv() } }"
+                " R.push(K.first, K.count, K.names, K.call(new K())); try{ K.call({}) }catch(e){ R.push(e.name) }" % v)
+    if k == 1:
+        return ("var log=[]; class B0 { constructor(){ log.push('B0:'+new.target.name) } m(){ return 'b' } static s(){ return 'bs' } } class D0 extends B0 { #x = (log.push('field'), %d); static #sx = 'sx'; constructor(){ log.push('pre'); super(); log.push('post'+this.#x) }"
+                " m(){ return super.m()+'d' } static s(){ return super.s()+D0.#sx } get x(){ return this.#x } set x(v){ this.#x = v } } var d=new D0(); d.x=d.x+1; R.push(log, d.m(), D0.s(), d.x, Object.getPrototypeOf(D0)===B0);" % v)
+    if k == 2:
+        return ("class Acc { static #reg = new Map(); #k; constructor(k){ this.#k=k; Acc.#reg.set(k,this) } static get(k){ return Acc.#reg.get(k) } get #secret(){ return 'k:'+this.#k } set #secret(v){ this.#k=v } reveal(){ this.#secret = this.#k+%d; return this.#secret }"
+                " static { new Acc(1); new Acc(2) } static has(o){ return (#k in o) && (#secret in o) } } R.push(Acc.get(2).reveal(), Acc.has(Acc.get(1)), Acc.has({}), typeof Acc.get(3));" % v)
+    return ("var C=class Named { static n = Named.name; ['comp'+%d](){ return 1 } static [Symbol.hasInstance](x){ return x===7 } *gen(){ yield* [1,2] } async am(){ return 3 } static async sam(){ return 4 } };"
+            " R.push(C.n, Object.getOwnPropertyNames(C.prototype), 7 instanceof C, [...new C().gen()], typeof new C().am().then, (class {}).name, (class { static name = 'own' }).name);" % v)
+
+
+def sn_destructuring(rng):
+    k = rng.randrange(4)
+    v = rng.randrange(20)
+    if k == 0:
+        return ("function f({a = %d, b: {c = a+1, ...inner} = {}, ...rest} = {}, [x = c, , y = x*2, ...zs] = [], ...more){ return [a,c,inner,rest,x,y,zs,more.length] }"
+                " R.push(f(), f({a:1,b:{c:2,q:3},z:9},[undefined,0,null,4,5],6,7), f({b:undefined},'hey'));" % v)
+    if k == 1:
+        return ("var log=[]; var src={ get p(){ log.push('p'); return undefined }, get q(){ log.push('q'); return 1 } }; var { p = (log.push('dp'), %d), q = (log.push('dq'), 2), [ 'r'+1 ]: r1 = 'R' } = src; R.push(p,q,r1,log);"
+                " var it={ [Symbol.iterator](){ var i=0; return { next(){ return {done:i>4, value:i++} }, return(){ log.push('closed'); return {} } } } }; var [h0,,h2]=it; R.push(h0,h2,log.slice(-1));" % v)
+    if k == 2:
+        return ("var a=1,b=2; [a,b]=[b,a]; var o={}; ({x:o.x, y:o['y'+%d]=5, ...o.rest} = {x:1,z:3}); R.push(a,b,o); for (var [k,{v=k+'!'}={}] of [['a',{v:1}],['b'],['c',{}]]) R.push(k,v);"
+                " function g(a, b = function(){ return a }, c = eval('a+1')){ var a = 10; return [a, b(), c] } R.push(g(1));" % v)
+    return ("function h(a = eval('var z%d = 5; 1')){ return [a, typeof z%d, (function(){ return typeof z%d })()] } R.push(h(), h(2)); var f2=(x, {y} = {y:x}, ...[z=y]) => [x,y,z]; R.push(f2(1), f2(1,{y:2},undefined), f2.length);"
+            " try { var {n} = null } catch(e){ R.push(e.name) } try { var [m] = 5 } catch(e){ R.push(e.name) }" % (v, v, v))
+
+
+def sn_loops(rng):
+    k = rng.randrange(4)
+    v = rng.randrange(2, 6)
+    if k == 0:
+        return ("var out=[]; outer: for (var i=0;i<4;i++){ inner: for (let j of [0,1,2,3]){ if (j===1) continue inner; if (j===3) continue outer; if (i===%d) break outer; try { out.push(i*10+j) } finally { if (j===2) out.push('f') } } } R.push(out, i);"
+                " var fns=[]; for (let q=0, step=%d; q<6; q+=step){ fns.push(function(){ return q+step }) } R.push(fns.map(function(f){ return f() }));" % (v, v))
+    if k == 1:
+        return ("var o=Object.create({inh:1}); o.b=2; o[3]=3; o.a=1; o[1]=0; Object.defineProperty(o,'hid',{value:1,enumerable:false}); var ks=[]; for (var key in o){ ks.push(key); if (key==='b') { delete o.a; o.late=1 } } R.push(ks);"
+                " var s=''; for (var ch of 'a😀b') s+='['+ch+']'; R.push(s); var n=0; lab: { n++; if (n) break lab; n=99 } R.push(n); var w=0; do { if (++w===%d) continue; if (w>5) break } while(true); R.push(w);" % v)
+    if k == 2:
+        return ("function sw(x){ var r=[]; switch(x){ case 0: r.push(0); case 1: r.push(1); break; default: r.push('d'); case 2: r.push(2); { let x='shadow'; r.push(x) } } return r } R.push(sw(0), sw(1), sw(2), sw(%d+5));"
+                " var acc=[]; for (var i=0, j=10; i<j; i+=3, j-=2) acc.push(i+':'+j); R.push(acc); var c=0; while(true){ try { if (++c>%d) break; continue } finally { acc.push('w'+c) } } R.push(acc.length);" % (v, v))
+    return ("function* walk(t){ if (!t) return; yield* walk(t.l); yield t.v; yield* walk(t.r) } var tree={v:%d,l:{v:1,l:null,r:{v:2}},r:{v:9}}; var seen=[]; for (var x of walk(tree)){ if (x===9) break; seen.push(x) } R.push(seen);"
+            " var g=(function*(){ try { yield 1; yield 2 } finally { seen.push('cleanup') } })(); for (var y of g){ break } R.push(seen.slice(-1), g.next());" % v)
+
+
+def sn_symbols(rng):
+    v = rng.randrange(9)
+    return ("var s=Symbol('d%d'), o={ [s]: 1, [Symbol.toStringTag]: 'Tagged', [Symbol.toPrimitive](h){ return h==='number' ? %d : 'prim' } }; class It { *[Symbol.iterator](){ yield 1; yield 2 } static [Symbol.hasInstance](x){ return x===1 } get [Symbol.toStringTag](){ return 'It' } }"
+            " R.push(String(o), +o, `${o}`, Object.prototype.toString.call(new It()), 1 instanceof It, [...new It()], s.description, Object(s)==s, Symbol.keyFor(Symbol.for('a.b')), Symbol.iterator.toString(), Object.getOwnPropertySymbols(o).length,"
+            " [1,2,3].concat({length:1,0:'x',[Symbol.isConcatSpreadable]:true}), 'a-b'.split({ [Symbol.split](str){ return str.length } }), /x/[Symbol.replace]('axb','_'), Array.prototype[Symbol.unscopables].flat);" % (v, v))
+
+
 SNIPPETS = [(sn_regex_exec, 3), (sn_regex_methods, 3), (sn_regex_fresh, 2), (sn_tagged, 4), (sn_class_private, 3), (sn_dynamic_scope, 4), (sn_constfold, 3),
-            (sn_generators, 2), (sn_control, 2), (sn_collections, 2), (sn_strings, 3), (sn_numbers, 1), (sn_funcs, 2)]
+            (sn_generators, 3), (sn_control, 2), (sn_collections, 2), (sn_strings, 3), (sn_numbers, 1), (sn_funcs, 2),
+            (sn_async, 3), (sn_class_static, 3), (sn_destructuring, 3), (sn_loops, 3), (sn_symbols, 2)]
 
 
 def gen_snippets(rng, k):
@@ -266,8 +342,10 @@ def gen_vals(rng):
             vals.append({"t": "utf16", "u": [rng.choice([0x61, 0xe9, 0xd83d, 0xde00, 0xd800, 0x20ac, 0x41, 0xfffd]) for _ in range(rng.randrange(1, 12))]})
         elif r < 0.78:
             vals.append({"t": "json", "s": json.dumps({"k": rng.choice(UNI) * 3 + "tail-of-the-string", "n": [1, 2]}, ensure_ascii=False)})
+        elif r < 0.82:
+            vals.append({"t": "symbol", "s": rng.choice(["k", "desc é", "", "a long symbol description beyond sixteen bytes"])})
         elif r < 0.84:
-            vals.append({"t": "symbol", "s": rng.choice(["k", "desc é", ""])})
+            vals.append({"t": "wellknown", "i": rng.randrange(12)})
         elif r < 0.88:
             vals.append({"t": "int", "i": rng.choice([0, 1, -1, 2 ** 31, 2 ** 53 - 1, -7])})
         elif r < 0.92:
@@ -289,6 +367,8 @@ PRIM_OPS = [
     "JSON.stringify(S(V))", "encodeURIComponent(S(V).replace(/[\\ud800-\\udfff]/g,''))", "Number(S(V))", "parseInt(S(V))", "!!V", "typeof V", "({[K(V)]:1})[K(V)]", "new Map([[V,1]]).get(V)",
     "new Set([V,W,V]).size", "S(V).concat(S(W),S(V)).length", "S(V).includes(S(W))", "S(V).startsWith('a')", "S(V).endsWith(S(W).slice(-1))", "S(V).repeat(2).length", "Object(V)==V",
     "S(V).search(/[^\\x00-\\x7f]/)", "S(V).at(-1)", "isNaN(V)", "String(V).length", "S(V).toString()===S(V)", "S(V).valueOf().length", "escape(S(V)).length", "S(V).split(/(?<=a)/).length",
+    "typeof V==='symbol' ? [V.description, V.toString(), Object(V).valueOf()===V, Symbol.keyFor(V)===undefined, ({[V]:7})[V], Object.getOwnPropertySymbols({[V]:1})[0]===V, new Map([[V,'m']]).get(V), new Set([V,V]).size, V===W] : 'nosym'",
+    "typeof V==='symbol' ? (function(){ var o={}; Object.defineProperty(o,V,{get:function(){ return 'g' }}); var ws=new WeakSet(); try{ ws.add(V) }catch(e){ return [o[V], e.name] } return [o[V],'weak-ok'] })() : 'nosym'",
     "`${S(V)}|${S(W)}`.length", "[V,W].join('-').length", "S(V).charAt(3)", "S(V)[0]", "S(V) in {}", "Object.is(V,V)", "V===V", "[V].indexOf(V)", "[V].includes(W)",
 ]
 
@@ -504,7 +584,7 @@ def race_signature(r, ranges, proto):
         if "write" in a["what"] and len(fr) >= 2 and fr[0].endswith("unistring.Scan") and fr[1] == "goja.importedString.scan":
             hit.add("imported")
     if hit == {"imported"}:
-        return (KNOWN_SIG if proto != "once" else "importedString-memo-race-despite-once-protocol"), tops
+        return MEMO_SIG, tops
     if hit == {"template"}:
         return TMPL_SIG, tops
     return "race:" + "|".join(tops) + ":" + "/".join(whats), tops
@@ -624,8 +704,8 @@ def main(ctx):
     ok, errs = ctx.lake_build(["GojaModel.C16.Props", "GojaModel.C16.Tie", "model_c16"])
     lean_ok = ok
     if ok:
-        ctx.audit("GojaModel.C16.Props", expect_min=14)
-        ctx.audit("GojaModel.C16.Tie", expect_min=9)
+        ctx.audit("GojaModel.C16.Props", expect_min=22)
+        ctx.audit("GojaModel.C16.Tie", expect_min=12)
         if ctx.tier == "thorough":
             ctx.leanchecker("GojaModel.C16.Props")
     model = ctx.model_exe()
@@ -718,7 +798,7 @@ def main(ctx):
                 ctx.obligation("corr:generator-valid:%d" % i, "correspondence", False, "generated case does not compile: %s" % (a.get("info") or a.get("base")))
                 continue
             if not a.get("ok"):
-                result_viol.append((i, "result-differs-from-isolated-run", a))
+                result_viol.append((i, "shared-object-mutated" if a.get("mutated") else "result-differs-from-isolated-run", a))
             if str(a.get("info", "")).startswith("timeouts="):
                 ctx.stats["watchdog_timeouts"] = ctx.stats.get("watchdog_timeouts", 0) + int(a["info"].split("=")[1])
             base = str(a.get("base", ""))
@@ -842,39 +922,29 @@ def main(ctx):
     unknown = []
     for sig, lst in by_sig.items():
         r, tops = lst[0]
-        gi = r.get("gcase")
-        c = cases[gi] if gi is not None else None
-        if sig == KNOWN_SIG:
-            ctx.violation(sig, "importedString lazy scan is unsynchronised: %d race reports on the memo cells of shared imported strings (e.g. %s)" % (len(lst), " vs ".join(tops)),
-                          {"kind": "schedule", "case": c, "report": r["text"][:3000]})
-        elif sig == TMPL_SIG:
-            ctx.violation(sig, "compiled tagged-template slots are shared by the template objects of every Runtime: %d race reports on them (e.g. %s)" % (len(lst), " vs ".join(tops)),
-                          {"kind": "schedule", "case": c, "report": r["text"][:3000]})
-        else:
-            unknown.append((sig, r, tops, gi))
-    # unknown races: try to reduce the program to one snippet (one batch of single-snippet variants), then report
-    for sig, r, tops, gi in unknown[:6]:
+        unknown.append((sig, r, tops, r.get("gcase")))
+    # every race report is a violation; reduce the program to one snippet where possible (one batch of single-snippet
+    # variants per signature, first 6 signatures), then report with the case as replay
+    for k, (sig, r, tops, gi) in enumerate(unknown[:24]):
         c = cases[gi] if gi is not None else None
         shr, rep = c, r
-        if c is not None and c["kind"] == "prog" and meta[gi].get("snips") and len(meta[gi]["snips"]) > 1:
+        if k < 6 and c is not None and c["kind"] == "prog" and meta[gi].get("snips") and len(meta[gi]["snips"]) > 1:
             snips = meta[gi]["snips"]
             variants = [dict(c, src=prog_src([sn]), n=8, reps=3) for sn in snips for _ in range(2)]
             seen, _ = rerun_signatures(ctx, exe, variants, proto)
-            for k, d in enumerate(seen):
+            for j, d in enumerate(seen):
                 if sig in d:
-                    shr, rep = variants[k], d[sig]
+                    shr, rep = variants[j], d[sig]
                     break
-        ctx.violation(sig, "data race reported while sharing a Program / primitive values between Runtimes: %s" % " vs ".join(tops),
+        n = len(by_sig[sig])
+        frames = sorted({" vs ".join(t) for _, t in by_sig[sig]})[:6]
+        what = {MEMO_SIG: "on the memo cells of an imported string shared between Runtimes (lazy scan not synchronised?)",
+                TMPL_SIG: "on the compiled tagged-template slots of a shared Program (template arrays not cloned per use?)"}.get(sig, "while sharing a Program / primitive values between Runtimes")
+        ctx.violation(sig, "data race %s: %d report(s), e.g. %s" % (what, n, "; ".join(frames)),
                       {"kind": "schedule", "case": shr, "report": rep["text"][:4000], "accesses": rep["accesses"], "shared_ranges": rep.get("ranges", [])[:40]})
 
-    # the known finding and the model must tell the same story
-    if proto == "unsync":
-        ctx.obligation("corr:race-witness-reproduces", "correspondence", KNOWN_SIG in by_sig,
-                       "the model proves memo_race_witness for the protocol as coded, but the -race runs did not show the race (generator too weak?)")
-    elif proto == "once":
-        ctx.obligation("corr:no-memo-race-under-once-protocol", "correspondence", not any(s.startswith("importedString") for s in by_sig), "")
-    else:
-        ctx.obligation("tie.memo-protocol-shape", "tie", False, "scan/ensureScanned are in neither analysed shape (%s)" % proto)
+    # the protocol regenerated from the source must be the once-style one the theorems are about
+    ctx.obligation("tie.memo-protocol-shape", "tie", proto == "once", "scan/ensureScanned regenerate to shape %r; memo_generated_drf / Tie.memo_shape are about the once-style protocol" % proto)
 
     return ctx.finish(
         level="proof",
